@@ -1,10 +1,6 @@
 //go:build verif
 
-// Witness for the finding "AddTmp: done is never closed when somebody else removed the
-// handler first" (property C06, oracle class tmp-done-not-closed-after-removal, suite
-// dispatch.tmpdone).  Fails on the current tree, passes with
-// notes/proposed-fixes/c06-tmp-done-after-removal.diff applied.  When the fix is
-// committed, move this file to harness/witness/dispatch_test.go.
+// Witnesses of repaired defects of the handler dispatch (property C06).
 package witness
 
 import (
@@ -14,6 +10,9 @@ import (
 	"github.com/lrstanley/girc"
 )
 
+// AddTmp: done was never closed when somebody else (Remove, Clear, ClearAll) removed the
+// handler before the deadline passed / the function returned true (repaired in a57d44a;
+// oracle class tmp-done-not-closed-after-removal, suite dispatch.tmpdone).
 func TestC06_TmpDoneAfterRemoval(t *testing.T) {
 	c := girc.New(girc.Config{Server: "irc.test", Port: 6667, Nick: "me", User: "user"})
 
